@@ -282,6 +282,15 @@ def run(ctx, ck):
             n_h += 1
             key = '%s|except %s|%s' % (g_.name, norm(h.type) if h.type is not None else '<bare>',
                                        norm(h.body[0])[:50] if h.body else '')
+            if not isinstance(last, ast.Return) and not any(isinstance(x_, (ast.Continue, ast.Break, ast.Raise))
+                                                            for s_ in h.body for x_ in ast.walk(s_)):
+                # the handler falls out of a try whose next statement is the closing return of the helper
+                t_ = parent(h)
+                body_ = getattr(parent(t_), 'body', None) if t_ is not None else None
+                if isinstance(t_, ast.Try) and not t_.finalbody and parent(t_) is g_.node and body_ and t_ in body_:
+                    i_ = body_.index(t_)
+                    if i_ + 1 < len(body_) and isinstance(body_[i_ + 1], ast.Return):
+                        last = body_[i_ + 1]
             ok_h = np_ == 1 and isinstance(last, ast.Return) and h.type is not None
             how_ = 'handler prints %d diagnostic(s) and %s' % (np_, 'returns to main' if isinstance(last, ast.Return)
                                                                else 'does NOT return')
@@ -351,19 +360,42 @@ def run(ctx, ck):
         ds = mfl_.def_exprs(name_node.id, at)
         gs = set()
         for d in ds:
-            if d[0] != 'assign' or not isinstance(d[1], ast.Call) or not isinstance(d[1].func, ast.Name):
+            if d[0] not in ('assign', 'unpack') or not isinstance(d[1], ast.Call) or not isinstance(d[1].func, ast.Name):
                 return None
             q_ = '%s.%s' % (mainf.module.name, d[1].func.id)
             if q_ not in ea.entry_helpers():
                 return None
             gs.add(q_)
+            if d[0] == 'unpack':
+                # `status, geo = helper(...)`: the status is one position of the tuples the helper returns
+                if d[3] is None:
+                    return None
+                positions.setdefault(q_, set()).add(d[3])
         return m.funcs[sorted(gs)[0]] if len(gs) == 1 else None
+
+    positions = {}
+
+    def helper_codes(g_):
+        """the values a helper can hand back as its exit code (constants), None if one is not a constant"""
+        out = []
+        for x_ in walk_no_nested(g_.node):
+            if isinstance(x_, ast.Return) and x_.value is not None:
+                v_ = x_.value
+                pos_ = positions.get(g_.qual)
+                if pos_:
+                    if not (isinstance(v_, ast.Tuple) and len(pos_) == 1 and max(pos_) < len(v_.elts)):
+                        return None
+                    v_ = v_.elts[next(iter(pos_))]
+                if not isinstance(v_, ast.Constant):
+                    return None
+                out.append(v_.value)
+        return out
 
     def helper_reports(g_):
         """every failing return of the helper (a constant other than a normal result) follows a diagnostic print"""
         for r_ in walk_no_nested(g_.node):
             if isinstance(r_, ast.Return) and (r_.value is None or isinstance(r_.value, ast.Constant)):
-                if r_.value is not None and r_.value.value not in (None, 23):
+                if r_.value is not None and r_.value.value not in (None, 23) and g_.qual not in positions:
                     return False
         return any(isinstance(c_, ast.Call) and isinstance(c_.func, ast.Name) and c_.func.id == 'print'
                    for c_ in walk_no_nested(g_.node))
@@ -374,9 +406,9 @@ def run(ctx, ck):
         if not ok and isinstance(v, ast.Name):
             # `rc = helper(...); if rc is not None: return rc`: the helper's own exit code
             g_ = helper_result(v, mfl_.node_id_of(r))
-            ok = g_ is not None and helper_reports(g_) and all(
-                isinstance(x_.value, ast.Constant) and x_.value.value in (None, 23)
-                for x_ in walk_no_nested(g_.node) if isinstance(x_, ast.Return) and x_.value is not None)
+            codes_ = helper_codes(g_) if g_ is not None else None
+            ok = g_ is not None and helper_reports(g_) and codes_ is not None and all(
+                c_ in (None, 23) or (c_ == 0 and c_ is not False and g_.qual in positions) for c_ in codes_)
             if ok:
                 continue
         if not ok:
